@@ -13,6 +13,8 @@ net/http's serialisation, URL escaping, TLS and connection pooling are library b
 (harness/cmd/c09 against `Pandora.Drv.C09`), not proved.
 -/
 import Pandora.Proofs.C09
+import Pandora.Proofs.C09Conn
+import Pandora.Bridge.HttpWire
 
 namespace Pandora.Props.C09
 open Pandora.Model.C09 Pandora.Spec.C09 Pandora.Proofs.C09
@@ -101,15 +103,57 @@ theorem C09_precedence_empty_host (f : Format) (conf lines : List (Str × Str)) 
   · simp [hu] at hno
 
 /-- **Method, request-URI and body bytes are the entry's**, whatever the configured headers are: GET/POST for
-uri/uripost, the entry's method token otherwise; `URL.RequestURI()` of the entry's URI; the body unchanged. -/
+uri/uripost, the entry's method token otherwise; the entry's URI as its format's parser reads it (`wireURI`:
+`URL.RequestURI()`, which for an origin-form URI is the URI itself — `C09_origin_form_unchanged`); the body unchanged. -/
 theorem C09_unchanged (f : Format) (conf : Hdr) (lines : List (Str × Str)) (e : Entry) (g : Gun) (r : Req)
     (h : buildReq f conf lines e = some r) :
-    (shoot g r).method = methodOf f e ∧ (shoot g r).uri = (splitURL (urlOf f e)).2 ∧
+    (shoot g r).method = methodOf f e ∧ (shoot g r).uri = wireURI f e ∧
       (shoot g r).body = bodyOf f e := by
   have hp : POST ≠ [] := by decide
   have hg : GET ≠ [] := by decide
   cases f <;> simp only [buildReq, buildAmmo] at h <;> have hf := enrich_fields _ _ _ h <;>
-    simp [shoot, hf, newRequest, readRequest, methodOf, urlOf, bodyOf, hp, hg]
+    simp [shoot, hf, newRequest, readRequest, readRequestWith, methodOf, urlOf, bodyOf, wireURI, viaOf, splitURL, hp, hg]
+
+/-- an origin-form request target: one leading `/` (not `//`: that is a network-path reference whose first segment
+is an authority for url.Parse) -/
+def originForm (u : Str) : Prop := ∃ rest, u = 47 :: rest ∧ rest.head? ≠ some 47
+
+/-- **An origin-form URI reaches the wire byte for byte** in every format (for http/json provided the `host` field
+is a plain authority: no `/`, `?`, `#` in it), and it names no host of its own. -/
+theorem C09_origin_form_unchanged (f : Format) (e : Entry) (ho : originForm e.uri)
+    (hh : e.host.all (fun c => !isAuthEnd c) = true) :
+    wireURI f e = e.uri ∧ (f ≠ .jsonline → f ≠ .jsonarr → urlHost f e = []) := by
+  obtain ⟨rest, hu, hr⟩ := ho
+  have h1 : stripPrefix? httpPfx (47 :: rest) = none := by simp [stripPrefix?, httpPfx]
+  have h2 : stripPrefix? httpsPfx (47 :: rest) = none := by simp [stripPrefix?, httpsPfx]
+  have plain : ∀ via, splitURLv via (47 :: rest) = ([], 47 :: rest) := by
+    intro via
+    simp only [splitURLv, h1, h2]
+    cases rest with
+    | nil => simp
+    | cons c cs =>
+      have hc : c ≠ 47 := by simpa using hr
+      simp [hc]
+  have json : splitURLv false (httpPfx ++ (e.host ++ 47 :: rest)) = (e.host, 47 :: rest) := by
+    have hs : ∀ (p s : Str), stripPrefix? p (p ++ s) = some s := by
+      intro p s; induction p with
+      | nil => cases s <;> rfl
+      | cons a t ih => simp [stripPrefix?, ih]
+    have hpre : stripPrefix? httpPfx (httpPfx ++ (e.host ++ 47 :: rest)) = some (e.host ++ 47 :: rest) := hs _ _
+    have htw : ∀ (h : Str), h.all (fun c => !isAuthEnd c) = true →
+        (h ++ 47 :: rest).takeWhile (fun c => !isAuthEnd c) = h ∧
+        (h ++ 47 :: rest).dropWhile (fun c => !isAuthEnd c) = 47 :: rest := by
+      intro h
+      induction h with
+      | nil => intro _; simp [isAuthEnd]
+      | cons a t ih =>
+        intro ha
+        simp only [List.all_cons, Bool.and_eq_true] at ha
+        have := ih ha.2
+        simp [List.dropWhile_cons, ha.1, this]
+    obtain ⟨t1, t2⟩ := htw e.host hh
+    simp only [splitURLv, hpre, splitAuth, t1, t2]
+  cases f <;> simp [wireURI, urlHost, urlOf, viaOf, hu, plain, json]
 
 /-- **Target and scheme.** Whatever the entry says (absolute URI naming another host or scheme, any Host), the
 transport is told to dial the gun's resolved target, with https iff `ssl`. -/
@@ -236,13 +280,193 @@ theorem C09_uri_sequence (post : Bool) (conf : Hdr) (wc : WF conf) (pre : List I
   rw [key pre [] ls WF_nil hdec]
   cases post <;> simp [buildReq]
 
-/-- **Connections, the one-line model.** With keep-alive and one client per instance the target sees at most
-`inst` connections however many requests arrive; without keep-alive exactly one per arrived request. -/
-theorem C09_connections (inst : Nat) (arrived : List Bool) :
-    connsOf true inst arrived ≤ inst ∧ connsOf false inst arrived = countTrue arrived := by
-  refine ⟨?_, by simp [connsOf]⟩
-  simp only [connsOf, if_true]
-  exact Nat.le_trans (List.length_filter_le _ _) (by simp)
+/-- **The target of every gun plugin.** For the http, http2 and connect plugins alike (import.go): the address the
+transport dials is the configured target itself or the address the reachability lookup found FOR that target; the
+scheme is https iff `ssl`; and the default Host header is the host of the CONFIGURED target (not of the resolved
+address), used exactly when the request has none. -/
+theorem C09_target_all_guns (k : GunKind) (ssl dnsCache isResolved : Bool) (l : Lookup) (target : Str) (r : Req) :
+    let g := factory k ssl dnsCache isResolved l target
+    ((shoot g r).dial = target ∨ l = .found (shoot g r).dial) ∧
+    (shoot g r).scheme = (if ssl then Scheme.https else Scheme.http) ∧
+    (shoot g r).host = (if r.host = [] then hostWithoutPort target else r.host) := by
+  refine ⟨?_, rfl, rfl⟩
+  simp only [shoot, factory, preResolve]
+  cases dnsCache <;> cases isResolved <;> cases l <;> simp
+
+/-- the http2 plugin refuses to be built without ssl, so whatever an http2 gun sends goes over TLS -/
+theorem C09_http2_needs_ssl (ssl : Bool) (h : constructible .http2 ssl = true) : ssl = true := by
+  simpa [constructible] using h
+
+/-- the connect plugin of the UNREPAIRED tree overwrote `Target` with the resolved address: with a named target the
+default Host was the resolved IP (fixes/C09-connect-gun-host.diff) -/
+theorem C09_unrepaired_connect_counterexample :
+    ¬ ∀ (ssl : Bool) (l : Lookup) (target : Str) (r : Req),
+      (shoot (factoryOld .connect ssl true false l target) r).host =
+        (if r.host = [] then hostWithoutPort target else r.host) := by
+  intro h
+  -- target "localhost:80", found "127.0.0.1:80"
+  have := h false (.found [49, 50, 55, 46, 48, 46, 48, 46, 49, 58, 56, 48])
+    [108, 111, 99, 97, 108, 104, 111, 115, 116, 58, 56, 48]
+    { method := GET, uri := [47], host := [], header := [], body := [] }
+  revert this
+  decide
+
+/-! ### connections -/
+
+/-- **Keep-alive, the bound of the property.** `inst` guns, each with its own transport, each shooting one request
+at a time; the flights `fs` in ANY order of sending (any interleaving of the instances); keep-alives enabled and no
+request asking to close: the target sees at most `inst` connections — exactly one per gun that got a request through. -/
+theorem C09_connections_keepalive (inst : Nat) (fs : List Flight) (hg : ∀ f ∈ fs, f.gun < inst)
+    (hc : ∀ f ∈ fs, f.close = false) :
+    connRun true inst fs ≤ inst := by
+  have h := connRunFrom_keepalive (List.replicate inst false, 0) fs (by simpa using hg)
+  have hlen := connRunFrom_length true (List.replicate inst false, 0) fs
+  have hcl := countClosing_zero fs hc
+  have hle := count_le_length (connRunFrom true (List.replicate inst false, 0) fs).1
+  simp only [connRun]
+  simp only [count_true_replicate_false, List.length_replicate] at h hlen
+  omega
+
+/-- with requests that ask to close (`Connection: close` given by the ammo or the option) every such request costs at
+most one more connection -/
+theorem C09_connections_close_bound (inst : Nat) (fs : List Flight) (hg : ∀ f ∈ fs, f.gun < inst) :
+    connRun true inst fs ≤ inst + countClosing fs := by
+  have h := connRunFrom_keepalive (List.replicate inst false, 0) fs (by simpa using hg)
+  have hlen := connRunFrom_length true (List.replicate inst false, 0) fs
+  have hle := count_le_length (connRunFrom true (List.replicate inst false, 0) fs).1
+  simp only [connRun]
+  simp only [count_true_replicate_false, List.length_replicate] at h hlen
+  omega
+
+/-- **Keep-alives disabled: one connection per request that arrives**, whatever the schedule. -/
+theorem C09_connections_no_keepalive (inst : Nat) (fs : List Flight) :
+    connRun false inst fs = countArrived fs := by
+  have := (connRunFrom_no_keepalive (List.replicate inst false, 0) fs (count_true_replicate_false inst)).1
+  simpa [connRun] using this
+
+/-- **The count does not depend on the interleaving of the instances**: it is the sum over the guns of what each gun's
+own sequence of requests costs (`gunConns`, a one-connection pool). Two sending orders with the same per-gun
+subsequences give the same number of connections — so the sequential driver speaks for every interleaving. -/
+theorem C09_connections_per_gun (ka : Bool) (inst : Nat) (fs : List Flight) (hg : ∀ f ∈ fs, f.gun < inst) :
+    connRun ka inst fs = sumRange inst (fun g => gunConns ka false (flightsOf g fs)) := by
+  have := connRunFrom_decompose ka (List.replicate inst false, 0) fs (by simpa using hg)
+  simp only [connRun, this, List.length_replicate, Nat.zero_add]
+  apply sumRange_congr
+  intro i _
+  rw [getD_replicate_false]
+
+theorem C09_connections_interleaving (ka : Bool) (inst : Nat) (fs₁ fs₂ : List Flight)
+    (h₁ : ∀ f ∈ fs₁, f.gun < inst) (h₂ : ∀ f ∈ fs₂, f.gun < inst)
+    (hsame : ∀ g, flightsOf g fs₁ = flightsOf g fs₂) :
+    connRun ka inst fs₁ = connRun ka inst fs₂ := by
+  rw [C09_connections_per_gun ka inst fs₁ h₁, C09_connections_per_gun ka inst fs₂ h₂]
+  apply sumRange_congr
+  intro g _
+  rw [hsame g]
+
+/-- an instance on its own: with keep-alive and no request asking to close, all its requests share one connection -/
+theorem C09_one_connection_per_instance (fs : List Flight) (hc : ∀ f ∈ fs, f.close = false) :
+    gunConns true false fs ≤ 1 := (gunConns_keepalive_le_one false fs hc).1
+
+/-! ### raw entries: the version in the request line does not decide about connections -/
+
+/-- **raw, HTTP/1.0 or 1.1 alike** (repaired, fixes/C09-raw-http10-keepalive.diff): the request a raw entry becomes is
+the same for both versions — in particular it asks to close iff the entry has an explicit `Connection: close`. -/
+theorem C09_raw_version_irrelevant (method target : Str) (lines : List (Str × Str)) (body : Str) :
+    readRequest 0 method target lines body = readRequest 1 method target lines body := by
+  simp [readRequest, readRequestWith, decodeClose, goShouldClose]
+
+/-- the unrepaired tree: http.ReadRequest marked an HTTP/1.0 request "close" — a raw entry `GET / HTTP/1.0` without
+any Connection header cost one connection per request although keep-alives were enabled -/
+theorem C09_unrepaired_raw10_counterexample :
+    ¬ ∀ (minor : Nat) (conn : List Str), hasTok conn closeTok = false → decodeCloseOld minor conn = false := by
+  intro h
+  have := h 0 [] (by decide)
+  revert this
+  decide
+
+/-! ### preload -/
+
+/-- **`preload: true` delivers what scanning delivers**: when a pass over the file decodes, the preloaded provider
+hands out exactly the requests the scanning provider does, pass after pass. -/
+theorem C09_preload_same_requests (f : Format) (conf : Hdr) (items : List Item) (passes : Nat) (rs : List Req)
+    (hok : scanPass f conf items = (rs, .ok)) :
+    provide true f conf items passes = provide false f conf items passes := by
+  simp only [provide, hok, if_true, Bool.false_eq_true, if_false]
+  induction passes with
+  | zero => simp [scanAll]
+  | succ n ih =>
+    simp only [scanAll, hok, List.replicate_succ, List.flatten_cons]
+    rw [← ih]
+
+/-! ### entries of the http/json and raw formats do not influence each other -/
+
+/-- **http/json: the request of an entry depends on that entry (and the option) only.** -/
+theorem C09_json_sequence (conf : Hdr) (wc : WF conf) (pre : List Item) (it : Item) (rest : List Item)
+    (hm : ∀ x ∈ pre ++ [it], validMethod x.ent.method = true) :
+    (scanJson conf (pre ++ it :: rest)).1[pre.length]? = buildReq .jsonline conf it.hdrs it.ent := by
+  induction pre with
+  | nil =>
+    have hv : validMethod it.ent.method = true := hm it (by simp)
+    obtain ⟨r, hr⟩ := enrich_no_panic (newRequest it.ent.method (httpPfx ++ (it.ent.host ++ it.ent.uri)) it.ent.body)
+      (mergeJson conf it.hdrs) (by rw [mergeJson_eq]; exact (WF_foldl_hset _ wc it.hdrs).nonempty)
+    simp [scanJson, hv, buildReq, buildAmmo, hr]
+  | cons p pre' ih =>
+    have hv : validMethod p.ent.method = true := hm p (by simp)
+    obtain ⟨r, hr⟩ := enrich_no_panic (newRequest p.ent.method (httpPfx ++ p.ent.host ++ p.ent.uri) p.ent.body)
+      (mergeJson conf p.hdrs) (by rw [mergeJson_eq]; exact (WF_foldl_hset _ wc p.hdrs).nonempty)
+    have := ih (fun x hx => hm x (by simp at hx ⊢; rcases hx with hx | hx; exact Or.inr (Or.inl hx); exact Or.inr (Or.inr hx)))
+    simp only [List.cons_append, scanJson, hv, Bool.not_true, Bool.false_eq_true, if_false, buildAmmo, hr,
+      List.length_cons, List.getElem?_cons_succ]
+    exact this
+
+/-- **raw: the request of an entry depends on that entry (and the option) only.** -/
+theorem C09_raw_sequence (conf : Hdr) (wc : WF conf) (pre : List Item) (it : Item) (rest : List Item) :
+    (scanRaw conf (pre ++ it :: rest)).1[pre.length]? = buildReq .raw conf it.hdrs it.ent := by
+  induction pre with
+  | nil =>
+    obtain ⟨r, hr⟩ := enrich_no_panic (readRequest it.ent.minor it.ent.method it.ent.uri it.hdrs it.ent.body) conf wc.nonempty
+    simp [scanRaw, buildReq, hr]
+  | cons p pre' ih =>
+    obtain ⟨r, hr⟩ := enrich_no_panic (readRequest p.ent.minor p.ent.method p.ent.uri p.hdrs p.ent.body) conf wc.nonempty
+    simp only [List.cons_append, scanRaw, hr, List.length_cons, List.getElem?_cons_succ]
+    exact ih
+
+/-! ### the model is what the source says now -/
+
+/-- **The regenerated code is the model.** `Pandora.Gen.HttpWire` is re-extracted from /repo's current source on every
+check (translator `/verif/gen -area httpwire`); the functions the theorems above speak about are exactly those:
+* `enrich` iterates the regenerated body of EnrichRequestWithHeaders' loop;
+* `shoot` is what the regenerated statements of BaseGun.Shoot do to the request, whatever scheme / URL host it had;
+* `hostWithoutPort`, `preResolve` are the regenerated getHostWithoutPort / PreResolveTargetAddr;
+* `mergeUri` / `mergeJson` fold the regenerated merge-loop bodies of uri.go, uripost.go / jsonline.go (Scan and readArray);
+* `decodeClose` is the regenerated rule of raw.DecodeRequest over net/http's shouldClose;
+* the http2 constructor's ssl check is the one of `constructible`.
+(The shape facts — where Setup / NewRequest arguments, the per-gun client, the keep-alive option and the factories'
+Target/TargetResolved come from — are pinned in `Pandora.Bridge.HttpWire` and compiled with this module.) -/
+theorem C09_regenerated_code_is_model :
+    (∀ (r : Req) (k : Str) (vs : List Str) (rest : Hdr),
+      enrich r ((k, vs) :: rest) = (Gen.HttpWire.enrichStep r k vs).bind (fun r' => enrich r' rest)) ∧
+    (∀ (g : Gun) (r : Req) (sch : Scheme) (d : Str),
+      Gen.HttpWire.shootRewrite g.ssl g.target g.targetResolved
+        { scheme := sch, dial := d, method := r.method, uri := r.uri, host := r.host, header := r.header, body := r.body,
+          close := wantsClose r } = some (shoot g r)) ∧
+    (∀ t, Gen.HttpWire.getHostWithoutPort t (splitHostPort? t) = hostWithoutPort t) ∧
+    (∀ dns isResolved l t, (Gen.HttpWire.preResolve dns isResolved l t).1 = preResolve dns isResolved l t) ∧
+    (∀ common conf, mergeUri common conf =
+      conf.foldl (fun h kv => (Gen.HttpWire.uriMergeStep h kv.1 kv.2).getD h) common) ∧
+    (∀ h k vv, Gen.HttpWire.uripostMergeStep h k vv = Gen.HttpWire.uriMergeStep h k vv) ∧
+    (∀ conf lines, mergeJson conf lines =
+      lines.foldl (fun h kv => (Gen.HttpWire.jsonScanMergeStep h kv.1 kv.2).getD h) conf) ∧
+    (∀ h k v, Gen.HttpWire.jsonArrayMergeStep h k v = Gen.HttpWire.jsonScanMergeStep h k v) ∧
+    (∀ minor conn, Gen.HttpWire.decodeRequestClose 1 minor (goShouldClose minor conn) (hasTok conn closeTok) =
+      decodeClose minor conn) ∧
+    (∀ ssl, constructible .http2 ssl = (!Gen.HttpWire.http2NeedsSSL || ssl)) ∧
+    Gen.HttpWire.defaultDisableKeepAlives = false :=
+  ⟨Bridge.HttpWire.enrich_cons, Bridge.HttpWire.shootRewrite_eq, Bridge.HttpWire.getHostWithoutPort_eq,
+   fun d i l t => by rw [Bridge.HttpWire.preResolve_eq], Bridge.HttpWire.mergeUri_eq,
+   Bridge.HttpWire.uripostMergeStep_eq, Bridge.HttpWire.mergeJson_eq, fun _ _ _ => rfl,
+   Bridge.HttpWire.decodeRequestClose_eq, Bridge.HttpWire.http2NeedsSSL_eq, rfl⟩
 
 /-! ### the unrepaired tree -/
 
@@ -307,5 +531,33 @@ example : (∀ n, (valsOf [(xa, vFile), (hostKey, vConf)] n).length ≤ 1) := by
   repeat' split
   all_goals simp_all
   all_goals (rename_i h1 h2; rw [← h1] at h2; revert h2; decide)
+
+/-- `C09_origin_form_unchanged`: "/a" is origin-form, "h" a plain authority -/
+example : originForm [47, 97] ∧ ([104] : Str).all (fun c => !isAuthEnd c) = true :=
+  ⟨⟨[97], rfl, by decide⟩, by decide⟩
+
+/-- `//a` is NOT origin-form: url.Parse reads `a` as the authority (Host) and the path is empty -/
+example : splitURLv false [47, 47, 97] = ([97], [47]) ∧ splitURLv true [47, 47, 97] = ([], [47, 47, 97]) := by decide
+
+/-- `C09_http2_needs_ssl` -/
+example : constructible .http2 true = true ∧ constructible .http2 false = false := by decide
+
+/-- `C09_connections_keepalive` / `_interleaving`: 2 guns, 4 arriving requests in two different sending orders with the
+same per-gun subsequences: 2 connections both times; one closing request in between costs a third -/
+example :
+    connRun true 2 [⟨0, true, false⟩, ⟨1, true, false⟩, ⟨0, true, false⟩, ⟨1, true, false⟩] = 2 ∧
+    connRun true 2 [⟨1, true, false⟩, ⟨1, true, false⟩, ⟨0, true, false⟩, ⟨0, true, false⟩] = 2 ∧
+    (∀ g, flightsOf g [⟨0, true, false⟩, ⟨1, true, false⟩, ⟨0, true, false⟩] =
+          flightsOf g [⟨1, true, false⟩, ⟨0, true, false⟩, ⟨0, true, false⟩]) ∧
+    connRun true 2 [⟨0, true, false⟩, ⟨0, true, true⟩, ⟨0, true, false⟩] = 2 ∧
+    connRun false 2 [⟨0, true, false⟩, ⟨0, false, false⟩, ⟨0, true, false⟩] = 2 := by
+  refine ⟨by decide, by decide, ?_, by decide, by decide⟩
+  intro g
+  simp only [flightsOf, List.filter_cons, List.filter_nil]
+  by_cases h0 : (0 == g) = true <;> by_cases h1 : (1 == g) = true <;> simp_all
+
+/-- `C09_preload_same_requests` / `C09_json_sequence` / `C09_raw_sequence`: a pass that decodes, with a well-formed option -/
+example : (scanPass .raw (confHdr [(xa, vConf)]) [Item.mk [(xa, vFile)] { slash with method := GET, minor := 0 }]).2 = .ok ∧
+    validMethod GET = true := by decide
 
 end Pandora.Props.C09
